@@ -741,8 +741,11 @@ class MyPyAstVisitor:
         unanalyzed_type: mp_types.Type | None,
         is_static: bool = True,
     ) -> list[Attribute]:
-        assert isinstance(lvalue, mp_nodes.NameExpr | mp_nodes.MemberExpr | mp_nodes.TupleExpr)
         attributes: list[Attribute] = []
+
+        if not isinstance(lvalue, mp_nodes.NameExpr | mp_nodes.MemberExpr | mp_nodes.TupleExpr):
+            # Other assignment targets, e.g. subscripts like self.data["key"] = 1, don't define attributes
+            return attributes
 
         if hasattr(lvalue, "name"):
             if self._is_attribute_already_defined(lvalue.name):
@@ -755,8 +758,10 @@ class MyPyAstVisitor:
         elif hasattr(lvalue, "items"):
             lvalues = list(lvalue.items)
             for lvalue_ in lvalues:
-                if not hasattr(lvalue_, "name"):  # pragma: no cover
-                    raise AttributeError("Expected value to have attribute 'name'.")
+                if not hasattr(lvalue_, "name"):
+                    # Nested targets like a, (b, c) = ...
+                    attributes.extend(self._parse_attributes(lvalue_, unanalyzed_type, is_static))
+                    continue
 
                 if self._is_attribute_already_defined(lvalue_.name):
                     continue
